@@ -202,6 +202,25 @@ def find_case_desc(shards, case):
     return None
 
 
+def kind_of(desc):
+    """Short label of a case descriptor for the grouped violation summary."""
+    try:
+        d = desc
+        parts = []
+        for _ in range(4):
+            if not isinstance(d, dict):
+                break
+            if "k" in d:
+                parts.append(str(d["k"]))
+                break
+            if "kind" in d:
+                parts.append(str(d["kind"]))
+            d = d.get("d") or d.get("shape") or d.get("x")
+        return "/".join(parts) or "?"
+    except Exception:
+        return "?"
+
+
 def write_evidence(pid, ev):
     os.makedirs(os.path.join(ROOT, "evidence"), exist_ok=True)
     with open(os.path.join(ROOT, "evidence", pid + ".json"), "w") as f:
@@ -338,7 +357,7 @@ def check(pid, tier, seed, replay=None):
     if violations:
         groups = {}
         for case, desc, v in violations:
-            key = (str((desc or {}).get("k", "?")), ",".join(sorted(set(v["codes"]))))
+            key = (kind_of(desc), ",".join(sorted(set(v["codes"]))))
             g = groups.setdefault(key, [0, desc, v])
             g[0] += 1
         for (k, codes), (n, desc, v) in sorted(groups.items()):
